@@ -29,11 +29,18 @@ def firstIndexOf (c : Nat) (s : Bytes) : Option Nat := s.findIdx? (· == c)
 
 def semicolon : Nat := 59
 
+/-- One `_` per rune that is not an ASCII letter or digit.  On well-formed UTF-8 a non-ASCII rune is
+    a lead byte (≥ 192) followed by continuation bytes (128..191): the lead byte becomes `_`, the
+    continuation bytes vanish.  (Both generators decode runes; they differ only on non-ASCII
+    *letters and digits*, which `domC17` leaves to the harness to avoid.) -/
+def sanitizeRunes (s : Bytes) : Bytes :=
+  s.filterMap fun c => if isAlnum c then some c else if 128 ≤ c && c < 192 then none else some underscore
+
 /-! ### pgsgo -/
 namespace PgsGo
 
 /-- `nonAlphaNumPattern.ReplaceAllString(s, "_")` -/
-def sanitize (s : Bytes) : Bytes := s.map fun c => if isAlnum c then c else underscore
+def sanitize (s : Bytes) : Bytes := sanitizeRunes s
 
 /-- `optionPackage` for a file that declares go_package `opt` (no M mapping) -/
 def optionPackage (input opt : Bytes) : Bytes × Bytes :=   -- (path, pkg)
@@ -91,9 +98,9 @@ end PgsGo
 /-! ### protoc-gen-go -/
 namespace Protogen
 
-/-- `strs.GoSanitized` on ASCII input -/
+/-- `strs.GoSanitized` on input whose non-ASCII runes are neither letters nor digits -/
 def goSanitized (s : Bytes) : Bytes :=
-  let s := s.map fun c => if isAlnum c then c else underscore
+  let s := sanitizeRunes s
   let firstIsLetter := match s with | c :: _ => isLetterB c | [] => false
   if goKeywordsB.contains s || !firstIsLetter then underscore :: s else s
 
@@ -257,7 +264,7 @@ def domC17 (w : World) : Bool :=
       | none => match lastIndexOf slash opt with | some i => opt.drop (i+1) | none => opt
     opt != [] && (opt.filter (· == semicolon)).length ≤ 1 &&
     (match last with | c :: _ => isAlnum c | [] => false) &&
-    last.all (fun c => isAlnum c || c == dot || c == 45 || c == underscore)
+    last.all (fun c => isAlnum c || c == dot || c == 45 || c == underscore || 128 ≤ c)
 
 def judgeC17 (w : World) (srcRel : Bool) (o : C17Obs) : Option String :=
   if o.failed then some "building failed (or protoc-gen-go rejected the request)" else
